@@ -174,8 +174,23 @@ def sink_text(sink) -> str:
     return "{" + ns + "|" + "/".join(stmt_text(s) for s in sink.store) + "}"
 
 
+_INTENDED: dict[int, tuple] = {}   # id(sink) -> (sink, identifier, bindings, statements) as the harness MEANT them
+
+
+def intend(sink, identifier, bindings, stmts):
+    """Remember what the harness put into a sink it built. The request for the model is rendered from this record, not by
+    reading the sink back: a sink that shares state with other sinks would otherwise tell the model its polluted content."""
+    _INTENDED[id(sink)] = (sink, identifier, list(bindings), list(stmts))
+    return sink
+
+
 def sink_arg(sink) -> str:
     """Sink as a request argument: id~ns~stmts."""
+    rec = _INTENDED.get(id(sink))
+    if rec is not None and rec[0] is sink:
+        _, identifier, bindings, stmts = rec
+        ns = "/".join(hx(p) + "=" + term_text(t) for p, t in bindings) or "_"
+        return term_text(identifier) + "~" + ns + "~" + stmts_text(stmts)
     ns = "/".join(hx(p) + "=" + term_text(t) for p, t in sink.namespaces) or "_"
     return term_text(sink.identifier) + "~" + ns + "~" + stmts_text(sink.store)
 
